@@ -39,6 +39,7 @@ def gen_cases(tier, seed):
         cfgd["collect_path"] = bool(rng.random() < 0.3)
         case = work.mk_case(fam, [seed, k], cfgd, gopts=({"n": int(rng.integers(1, 6))} if fam in ("QP", "NLP") else {}))
         case["y0"] = "rand" if rng.random() < 0.4 else "none"
+        case["probe"] = bool(k % 4 == 3)
         cases.append(case)
     return cases
 
@@ -52,7 +53,22 @@ def solve(case, limit=None, clock=None, time_limit=None):
     cfgd["time_limit"] = TIME_LIMIT if time_limit is None else time_limit
     p = work.prepare(dict(case, cfg=cfgd), record_sites=False, keep_args=False)
     clock = clock or mon.VirtualClock(time_limit=TIME_LIMIT, display_bits=[0])
-    out = mon.run_solve(p.rec, p.params, p.x0, p.y0, clock=clock)
+    cb, holder = None, []
+    if case.get("probe"):
+        # a user callback that probes one step ahead with the solver's own single-step entry point every third trial
+        # (in the reference run and in every limited run alike)
+        xs0 = None if p.x0 is None else np.array(p.x0, dtype=float, copy=True)
+        ys0 = None if p.y0 is None else np.array(p.y0, dtype=float, copy=True)
+
+        def cb(iterate, next_iterate, accept, _n=[0]):
+            _n[0] += 1
+            if _n[0] % 3 == 0 and holder:
+                try:
+                    holder[0].perform_iteration(xs0, ys0)
+                except Exception:
+                    pass
+
+    out = mon.run_solve(p.rec, p.params, p.x0, p.y0, clock=clock, user_callback=cb, solver_holder=holder)
     return p, out, clock
 
 
@@ -96,6 +112,7 @@ def run_case(case):
     natural = ref.result.status.name
     capped = natural == "IterationLimit" and L >= CAP
     bump("base_runs")
+    bump("base_runs_with_probing_callback", int(bool(case.get("probe"))))
     bump("reference_trials", L)
     nreads = rclock.limit_reads
     evals = 1
@@ -233,7 +250,7 @@ def finalize(agg, tier):
                 "distinct by construction and counted as non-trivial when all comparisons were carried out" % CAP,
         "floors": {"base_runs": 20, "iteration_budgets_enumerated": 300, "deadline_positions_enumerated": 500,
                    "deadline_inside_newton_loop": 100, "aborted_steps_observed": 50, "natural_endings_checked": 10,
-                   "deadlines_by_time_limit_value": 100, "time_limit_zero_runs": 20},
+                   "deadlines_by_time_limit_value": 100, "base_runs_with_probing_callback": 8, "time_limit_zero_runs": 20},
         "exhaustive": True,
         "assumptions": ["the deadline is driven by a virtual clock substituted for time.time inside pygradflow.timer; "
                         "display is off so that the display timer does not interleave reads",
